@@ -101,6 +101,7 @@ def main(tier: str, seed: int, replay: str | None = None) -> int:
     C.force_repo_on_path()
     rep = C.Report("C18", tier, seed)
     rep.proof_stage()
+    rep.proof_stage("C18_pure")     # schedule independence where it holds: read-only subtype constraints
     rng = random.Random(seed)
     nh, npg, cap = (30, 60, 24) if tier == "quick" else (120, 80, 120)
     # corpus: the refutation witness of props/C18.v, replayed on the implementation
